@@ -42,6 +42,7 @@ EP == [
   rsp_row |-> {"wide"},
   hybrid_compute |-> {"tall"},
   cgne_compute |-> {"tall"},
+  deeplinear_compute |-> {"coupled"},            \* DeepLinearNewtonSchulz.compute(X, layers): layers[0] is the number of columns of X
   tensor_unfold |-> {"order3", "quat", "option"},
   tensor_fold |-> {"coupled", "option"},
   tensor_unfold_mode0 |-> {"order3", "quat", "option"},
